@@ -341,3 +341,26 @@ def pairwise_visit(elt_src, visitor: str) -> Optional[bool]:
     if not (isinstance(b, ast.Tuple) and len(b.elts) == 2):
         return None
     return norm(b.elts[0]) == s_ and norm(b.elts[1]) == f"{visitor}.visit({e_})"
+
+
+def is_total_len(e, seq: str) -> Optional[bool]:
+    """e is the sum of len(x) over the elements x of `seq`: sum(len(x) for x in seq) / sum(map(len, seq)) /
+    reduce(lambda a, b: a + len(b), seq, 0).  None when e is not a summation over seq at all."""
+    e = strip_wrappers(e)
+    if isinstance(e, ast.Call) and isinstance(e.func, ast.Name) and e.func.id == "sum" and e.args:
+        src = strip_wrappers(e.args[0])
+        start_ok = len(e.args) == 1 or norm(e.args[1]) == "0"
+        if isinstance(src, (ast.GeneratorExp, ast.ListComp)) and len(src.generators) == 1 and norm(src.generators[0].iter) == seq:
+            g = src.generators[0]
+            return start_ok and not g.ifs and norm(src.elt).replace(" ", "") == f"len({norm(g.target)})"
+        if isinstance(src, ast.Call) and isinstance(src.func, ast.Name) and src.func.id == "map" and len(src.args) == 2 and norm(src.args[1]) == seq:
+            return start_ok and norm(src.args[0]) == "len"
+        return None
+    if isinstance(e, ast.Call) and (dotted(e.func) or "").split(".")[-1] == "reduce" and len(e.args) >= 2 and norm(e.args[1]) == seq:
+        lam = e.args[0]
+        if isinstance(lam, ast.Lambda) and len(lam.args.args) == 2:
+            a, b = (x.arg for x in lam.args.args)
+            body = norm(lam.body).replace(" ", "")
+            return body in (f"{a}+len({b})", f"len({b})+{a}") and len(e.args) == 3 and norm(e.args[2]) == "0"
+        return None
+    return None
